@@ -503,6 +503,7 @@ type e2eScn struct {
 	Size      string `json:"size"`  // size class of the padded events
 	Names     []int  `json:"names"` // indexes into the name table
 	Mid       bool   `json:"mid"`   // upgrade: emit while the upgrade is in progress
+	Held      string `json:"held"`  // "" | "poll-resp" | "post": one long-polling transfer kept back across the upgrade (e2e_held.go)
 	Seed      uint64 `json:"seed"`
 }
 
@@ -533,14 +534,17 @@ type e2eRow struct {
 	Twice     int       `json:"twice"`      // name index registered twice (second registration records 100+index)
 	ProbeSet  int64     `json:"probe_set"`  // offset-probe handler saw a non-empty extra parameter
 	ProbeZero int64     `json:"probe_zero"` // ... saw the zero value
-	Emitted   []e2eEv   `json:"emitted"`
-	Delivered []e2eDel  `json:"delivered"`
-	Errors    []string  `json:"errors"`
-	Disc      int       `json:"disc"`  // disconnect/close callbacks seen before teardown
-	Setup     string    `json:"setup"` // "" = rig came up; otherwise an environmental failure (retried by the driver)
-	Complete  bool      `json:"complete"`
-	WallMs    int64     `json:"wall_ms"`
-	EmitPanic []string  `json:"emit_panic"`
+	// websocket traffic WITH attachments while a poll response of the old transport is still in flight
+	// (held-transfer scenarios): outside feeders_safe of Sio/EndToEnd.v
+	WsAttInFlight bool     `json:"ws_att_in_flight"`
+	Emitted       []e2eEv  `json:"emitted"`
+	Delivered     []e2eDel `json:"delivered"`
+	Errors        []string `json:"errors"`
+	Disc          int      `json:"disc"`  // disconnect/close callbacks seen before teardown
+	Setup         string   `json:"setup"` // "" = rig came up; otherwise an environmental failure (retried by the driver)
+	Complete      bool     `json:"complete"`
+	WallMs        int64    `json:"wall_ms"`
+	EmitPanic     []string `json:"emit_panic"`
 }
 
 // effective per-message limit of the receiving transport as the code stands (mirrors
@@ -1030,6 +1034,20 @@ func e2eMatrix(seed uint64, tier string) []e2eScn {
 			id++
 		}
 	}
+	// held transfers: two transports feed one parser while the upgrade happens (e2e_held.go)
+	for round := 0; round < rounds; round++ {
+		for _, h := range []struct {
+			held, dir, phase2 string
+			emitters          int
+		}{
+			{"poll-resp", "s2c", "plain", 4}, {"poll-resp", "s2c", "plain", 2}, {"poll-resp", "s2c", "binary", 4},
+			{"post", "c2s", "binary", 4},
+		} {
+			scns = append(scns, e2eScn{ID: id, Transport: "upgrade", Recovery: round%2 == 1, Dir: h.dir, Clients: 1,
+				Emitters: h.emitters, Per: 50, Size: h.phase2, Names: []int{0, 1, 4, 7, 8, 9, 12, 13}, Mid: true, Held: h.held, Seed: r.U64()})
+			id++
+		}
+	}
 	// the special names: trailing backslash (C09) and the empty name, both directions
 	for _, dir := range []string{"s2c", "c2s"} {
 		for _, special := range []int{14, 15} {
@@ -1078,7 +1096,11 @@ func e2eMain(args []string) error {
 			defer func() { <-sem }()
 			var row e2eRow
 			for attempt := 0; attempt < 3; attempt++ {
-				row = e2eRunScenario(s, lim)
+				if s.Held != "" {
+					row = e2eRunHeld(s, lim)
+				} else {
+					row = e2eRunScenario(s, lim)
+				}
 				if row.Setup == "" {
 					break // only environmental set-up failures are retried, never a recorded history
 				}
